@@ -496,7 +496,7 @@ def gen_cases(ctx, T, harness):
         for root in G.sweep_docs(lang):
             add(lang, root, "sweep", MODES_SMALL if quick else MODES_FULL)
     # random documents, full option cross product
-    nrand = 18 if quick else 400
+    nrand = 36 if quick else 400
     for lang in langs:
         for _ in range(nrand):
             add(lang, G.random_doc(lang), "random", MODES_FULL if rng.chance(1, 2) or not quick else MODES_SMALL)
@@ -524,7 +524,7 @@ def run(ctx):
         "the model starts from the tree the C built (dumped by the harness before serialisation); the tree builder itself is not modelled",
         "text, PI and embedded-tree nodes have no children (true of every tree the WBXML tree builder makes; the driver refuses other dumps)",
         "isspace() is the C-locale function (space, HT, LF, VT, FF, CR)",
-        "a literal ROOT element in a language with a namespace table: the C reads the code page through the wrong union member (low byte of the literal's length on x86-64); modelled as such",
+        "a literal ROOT element in a language with a namespace table: the C reads the code page through the wrong union member (low byte of the literal's length on x86-64); modelled as such (finding D22; goes away with the fix in DEFECTS.md)",
         "oracle reading of 'exactly the character data': exact for compact/canonical; keep-whitespace off strips each text node and drops blank ones (not inside CDATA / binary elements / canonical mode); indented generation compared modulo blank text between markup in elements that have element children; XML end-of-line and attribute-value normalisation applied to the expectation outside canonical mode and inside CDATA sections",
     ]
     bad = common.forbidden_scan()
@@ -571,6 +571,7 @@ def run(ctx):
     kinds, verdicts, skipwhy = {}, {}, {}
     nontrivial = set()
     reads = []          # (index, xml bytes, pyexpat canonical infoset or None)
+    specs = []          # (index, driver line, pyexpat canonical items) for the specification side of the theorems
     nparsed = 0
     for i, a in enumerate(ca):
         ci, g, ind, kw = meta[i]
@@ -608,7 +609,10 @@ def run(ctx):
             reads.append((i, xml_bytes, None))
         elif v == "ok":
             nontrivial.add((c["doc"], g, ind, kw))
-            reads.append((i, xml_bytes, canon_infoset(*det["infoset"])))
+            ci_ = canon_infoset(*det["infoset"])
+            reads.append((i, xml_bytes, ci_))
+            if g != 1:
+                specs.append((i, "spec %d %d %d %s" % (g, ind, kw, dump), " ".join(ci_.split()[4:])))
         else:
             lid, roots = parse_dump(toks)
             sh = shapes(roots)
@@ -647,6 +651,18 @@ def run(ctx):
         else:
             nread_ok += 1
 
+    # ---- specification side of the theorems (info_node under node_ok) vs pyexpat
+    sa, _ = common.run_lines(driver, [s[1] for s in specs])
+    spec_bad, nspec = [], 0
+    for (i, line, want), r in zip(specs, sa):
+        f = (r or "").split(" ", 3)
+        if len(f) < 4 or f[0] != "SPEC" or f[1] != "true" or f[2] != "true" or f[3] == "NONE":
+            continue                    # hypotheses of the theorem (node_ok: stricter than the property's) do not hold
+        nspec += 1
+        if f[3] != want:
+            ci, g, ind, kw = meta[i]
+            spec_bad.append({"wbxml": cases[ci]["doc"].hex(), "mode": [g, ind], "keep_ws": kw, "spec": f[3][:600], "pyexpat": want[:600]})
+
     ctx.coverage.update({
         "evaluations": len(lines),
         "distinct_nontrivial": len(nontrivial),
@@ -660,6 +676,8 @@ def run(ctx):
         "correspondence_disagreements": len(corr),
         "reader_vs_pyexpat_compared": nread_ok + len(read_bad),
         "reader_vs_pyexpat_disagreements": len(read_bad),
+        "theorem_spec_vs_pyexpat_compared": nspec,
+        "theorem_spec_vs_pyexpat_disagreements": len(spec_bad),
         "pending_findings": {k: len(v) for k, v in pending_hits.items()},
     })
 
@@ -674,15 +692,16 @@ def run(ctx):
                 ctx.known_hits.append(k)
     seen = set()
     for v in concrete:
-        if v["kind"] in seen and len(seen) >= 1 and sum(1 for _ in seen) >= 5:
-            continue
-        if v["kind"] in seen:
+        if v["kind"] in seen:          # one replay per kind of failure
             continue
         seen.add(v["kind"])
         ctx.violation("c-violates-oracle-" + v["kind"], {"replay_cmd": "bin/check C05 --replay <this file>", **v})
     if read_bad:
         ctx.violation("reader-model-vs-pyexpat", {"broken": "Model/XmlRead.v read_xml disagrees with pyexpat on output of the C", "first_cases": read_bad[:3]},
                       found_input=False)
+    if spec_bad:
+        ctx.violation("theorem-spec-vs-pyexpat", {"broken": "the infoset specified by info_node (Proofs/EncXmlProofs.v) under node_ok differs from what pyexpat reads in the C's output",
+                                                  "first_cases": spec_bad[:3]}, found_input=False)
     if not concrete:
         if proof_broken:
             ctx.violation("proof-broken", {"broken": "Properties_C05.v no longer checks", "failed_theorems": cres["failed"],
